@@ -135,6 +135,9 @@ type Builder struct {
 	buf     []byte
 	PtrSize uintptr
 	Sizes   types.Sizes
+	// Align64 is the alignment of 64-bit scalars in the target's data layout
+	// (4 on 386); 0 means 8.
+	Align64 uintptr
 }
 
 // New creates a new ABI type Builder.
